@@ -359,7 +359,7 @@ class ExasolGenerator(generator.Generator):
             rename_func("EDIT_DISTANCE")
         ),
         # https://docs.exasol.com/db/latest/sql_references/functions/alphabeticallistfunctions/mod.htm
-        exp.Mod: rename_func("MOD"),
+        exp.Mod: lambda self, e: self.func("MOD", *e.unnest_operands()),
         # https://docs.exasol.com/db/latest/sql_references/functions/alphabeticallistfunctions/from_posix_time.htm
         exp.UnixToTime: lambda self, e: self.func("FROM_POSIX_TIME", e.this),
         # https://docs.exasol.com/db/latest/sql_references/functions/alphabeticallistfunctions/rank.htm
